@@ -7,8 +7,12 @@ use std::path::PathBuf;
 use walrus_rust::{FsyncSchedule, ReadConsistency, Walrus};
 
 fn pat_byte(uid: u64, i: u64) -> u8 {
-    let x = uid.wrapping_mul(0x9E3779B97F4A7C15).wrapping_add(i.wrapping_mul(0x100000001B3)).wrapping_add(i >> 7);
-    ((x >> 24) as u8) | 1 // never zero, so payload bytes differ from unwritten space
+    // splitmix64 of (uid, i): every byte depends on both, so equal-length payloads of different uids differ
+    let mut z = (uid.wrapping_add(1)).wrapping_mul(0x9E3779B97F4A7C15) ^ i.wrapping_mul(0xD1B54A32D192ED03);
+    z = (z ^ (z >> 30)).wrapping_mul(0xBF58476D1CE4E5B9);
+    z = (z ^ (z >> 27)).wrapping_mul(0x94D049BB133111EB);
+    z ^= z >> 31;
+    ((z >> 56) as u8) | 1 // never zero, so payload bytes differ from unwritten space
 }
 fn payload(uid: u64, len: usize) -> Vec<u8> {
     let mut v = vec![0u8; len];
